@@ -256,21 +256,44 @@ def ckFileView (ck : Bytes → Nat → Nat) (seg : Nat) (bs : List RawBlock) : C
   { totalBlocks := bs.length, validBlocks := bs.length - errs.length, invalidBlocks := errs.length,
     zeroBlocks := (bs.filter (·.isZero)).length, errors := errs }
 
-/-! ## Data directories -/
+/-! ## Data directories
 
-/-- a relation segment file inside a database directory -/
+PostgreSQL's side (relpath.c `GetRelationPath`, md.c `_mdfd_segpath`, pg_checksums.c `scan_directory`):
+the data files of a cluster live in `global/` (shared relations), `base/<dboid>/` and
+`pg_tblspc/<spcoid>/PG_<major>_<catversion>/<dboid>/`.  A relation has up to four forks — main, free space map,
+visibility map, init — each stored as segment files `<relfilenode>[_fsm|_vm|_init][.<segno>]` (segment 0 has no
+suffix; relfilenode and segno are 32-bit numbers).  EVERY fork consists of ordinary 8 KiB pages that carry
+`pd_checksum`, and the blocks of a fork are numbered from 0 in that fork: block i of segment `seg` of any fork is
+block `seg · 131072 + i`.  pg_checksums verifies all of them; what it skips are the non-relation files
+(`pg_control`, `pg_filenode.map`, `pg_internal.init`, `PG_VERSION`, temporary files). -/
+
+/-- the forks of a relation (`ForkNumber`, `forkNames[]` in relpath.c) -/
+inductive Fork where
+  | main | fsm | vm | init
+deriving Repr, DecidableEq, Inhabited
+
+/-- the suffix of a fork in file names: "", "_fsm", "_vm", "_init" -/
+def Fork.suffix : Fork → Bytes
+  | .main => []
+  | .fsm => [95, 102, 115, 109]
+  | .vm => [95, 118, 109]
+  | .init => [95, 105, 110, 105, 116]
+
+/-- a relation segment file inside a directory of relation files -/
 structure SegFile where
   filenode : Nat
+  fork : Fork
   seg : Nat
   file : RelFile
 deriving Repr, DecidableEq, Inhabited
 
 def decimalName (n : Nat) : Bytes := (toString n).toUTF8.toList
 
-def SegFile.name (s : SegFile) : Bytes := segName (decimalName s.filenode) s.seg
+/-- `<relfilenode>[_fsm|_vm|_init][.<segno>]` -/
+def SegFile.name (s : SegFile) : Bytes := segName (decimalName s.filenode ++ s.fork.suffix) s.seg
 
-/-- a database directory: relation segment files, other files (forks, maps, version files …),
-sub-directories -/
+/-- a directory of relation files (a database directory, or `global/`): relation segment files, other files
+(maps, version files, temporary files …), sub-directories -/
 structure Database where
   oid : Nat
   segs : List SegFile
@@ -278,31 +301,115 @@ structure Database where
   subdirs : List Bytes
 deriving Repr, Inhabited
 
-/-- `<dataDir>/base`: databases, plus entries that are not database directories -/
+/-- a directory of database directories (`<dataDir>/base`, or one version directory of a tablespace): databases,
+plus entries that are not database directories -/
 structure BaseDir where
   dbs : List Database
-  strayFiles : List Bytes                               -- plain files directly in base/
+  strayFiles : List Bytes                               -- plain files directly in it
   strayDirs : List (Bytes × List (Bytes × Bytes))       -- directories whose name is not an OID
 deriving Repr, Inhabited
 
-/-- `<digits>` or `<digits>.<digits>` — the names of main-fork relation segment files -/
-def isRelSegName (name : Bytes) : Bool :=
+/-- a tablespace: `pg_tblspc/<oid>` (a symbolic link to, or a directory at, the tablespace location), inside it the
+version directory `PG_<major>_<catversion>` with the database directories -/
+structure Tablespace where
+  oid : Nat
+  verDir : Bytes
+  dbs : BaseDir
+deriving Repr, Inhabited
+
+/-- a data directory as far as relation files go -/
+structure DataDir where
+  globalDir : Option Database        -- `global/` (its `oid` is not used); none: no such directory
+  base : BaseDir
+  tablespaces : List Tablespace
+deriving Repr, Inhabited
+
+/-! ### the grammar of relation segment file names -/
+
+/-- `s` ends in `suf` -/
+def endsIn (s suf : Bytes) : Bool := suf.length ≤ s.length && s.drop (s.length - suf.length) == suf
+
+/-- the part of `<relfilenode>[_fork]` before the fork suffix (the whole string when there is none) -/
+def beforeFork (s : Bytes) : Bytes :=
+  if endsIn s Fork.fsm.suffix then s.take (s.length - 4)
+  else if endsIn s Fork.vm.suffix then s.take (s.length - 3)
+  else if endsIn s Fork.init.suffix then s.take (s.length - 5)
+  else s
+
+/-- a 32-bit decimal number (Oid, segment number) -/
+def number32 (s : Bytes) : Option Nat := if isDigits s && decimal s < 2 ^ 32 then some (decimal s) else none
+
+/-- The recogniser of relation segment file names, with the segment number the name carries:
+`<relfilenode>[_fsm|_vm|_init]` → 0, `<relfilenode>[_fsm|_vm|_init].<segno>` → segno; every other name
+(`PG_VERSION`, `pg_filenode.map`, `pg_internal.init`, `t3_16384`, `16384.`, `16384.1x`, `16384_fsm_vm` …) → none. -/
+def relSegNumber (name : Bytes) : Option Nat :=
   match (name.reverse.span (· != 46)) with
-  | (_, []) => isDigits name
-  | (revSuffix, _ :: revStem) => isDigits revSuffix.reverse && isDigits revStem.reverse
+  | (_, []) => if (number32 (beforeFork name)).isSome then some 0 else none
+  | (revSuffix, _ :: revStem) =>
+    match number32 revSuffix.reverse with
+    | none => none
+    | some seg => if (number32 (beforeFork revStem.reverse)).isSome then some seg else none
+
+/-- is the name that of a relation segment file (any fork)? -/
+def isRelSegName (name : Bytes) : Bool := (relSegNumber name).isSome
 
 /-- result per visited file -/
 structure CkDirFile where
-  db : Bytes
+  db : Bytes           -- the directory, relative to the data directory (`global`, `base/5`, `pg_tblspc/16400/PG_15_202209061/5`)
   name : Bytes
   view : CkFileView
 deriving Repr, DecidableEq, Inhabited
 
-/-- every relation segment file with at least one block is visited, with its own segment number -/
-def ckDirFiles (ck : Bytes → Nat → Nat) (base : BaseDir) : List CkDirFile :=
-  base.dbs.flatMap fun db =>
-    (db.segs.filter fun s => s.file.blocks.length ≥ 1).map fun s =>
-      ⟨decimalName db.oid, s.name, ckFileView ck s.seg s.file.blocks⟩
+def slash (a b : Bytes) : Bytes := a ++ [47] ++ b
+
+/-- every relation segment file (any fork) with at least one block is verified, with its own segment number -/
+def ckFilesOf (ck : Bytes → Nat → Nat) (dir : Bytes) (db : Database) : List CkDirFile :=
+  (db.segs.filter fun s => s.file.blocks.length ≥ 1).map fun s => ⟨dir, s.name, ckFileView ck s.seg s.file.blocks⟩
+
+def ckBaseFiles (ck : Bytes → Nat → Nat) (dir : Bytes) (b : BaseDir) : List CkDirFile :=
+  b.dbs.flatMap fun db => ckFilesOf ck (slash dir (decimalName db.oid)) db
+
+/-- "global", "base", "pg_tblspc", "PG_" -/
+def globalDirName : Bytes := [103, 108, 111, 98, 97, 108]
+def baseDirName : Bytes := [98, 97, 115, 101]
+def tblspcDirName : Bytes := [112, 103, 95, 116, 98, 108, 115, 112, 99]
+def versionDirPrefix : Bytes := [80, 71, 95]
+
+def ckDirFiles (ck : Bytes → Nat → Nat) (d : DataDir) : List CkDirFile :=
+  (match d.globalDir with | some g => ckFilesOf ck globalDirName g | none => []) ++
+  ckBaseFiles ck baseDirName d.base ++
+  d.tablespaces.flatMap fun t =>
+    ckBaseFiles ck (slash (slash tblspcDirName (decimalName t.oid)) t.verDir) t.dbs
+
+/-! ### well-formed data directories (decidable; checked on every generated directory) -/
+
+/-- every relation segment file is a well-formed relation file whose name the grammar reads back with its own segment
+number and whose block numbers fit PostgreSQL's 32-bit BlockNumber; no other file has a relation segment file name -/
+def Database.WF (db : Database) : Prop :=
+  (∀ s ∈ db.segs, s.file.WF ∧ relSegNumber s.name = some s.seg ∧ s.seg * 131072 + s.file.blocks.length ≤ 2 ^ 32) ∧
+  (∀ o ∈ db.others, relSegNumber o.1 = none)
+
+instance (db : Database) : Decidable db.WF := by unfold Database.WF; infer_instance
+
+/-- database directories are named by their 32-bit OID; the other directories are not -/
+def BaseDir.WF (b : BaseDir) : Prop :=
+  (∀ db ∈ b.dbs, db.WF ∧ (number32 (decimalName db.oid)).isSome = true) ∧ (∀ d ∈ b.strayDirs, number32 d.1 = none)
+
+instance (b : BaseDir) : Decidable b.WF := by unfold BaseDir.WF; infer_instance
+
+def Tablespace.WF (t : Tablespace) : Prop :=
+  (number32 (decimalName t.oid)).isSome = true ∧ t.verDir.take 3 = versionDirPrefix ∧ t.dbs.WF
+
+instance (t : Tablespace) : Decidable t.WF := by unfold Tablespace.WF; infer_instance
+
+def DataDir.WF (d : DataDir) : Prop :=
+  (∀ g, d.globalDir = some g → g.WF) ∧ d.base.WF ∧ ∀ t ∈ d.tablespaces, t.WF
+
+instance (d : DataDir) : Decidable d.WF := by
+  unfold DataDir.WF
+  cases d.globalDir with
+  | none => exact decidable_of_iff (d.base.WF ∧ ∀ t ∈ d.tablespaces, t.WF) (by simp)
+  | some g => exact decidable_of_iff (g.WF ∧ d.base.WF ∧ ∀ t ∈ d.tablespaces, t.WF) (by simp)
 
 structure CkDirView where
   totalFiles : Nat
@@ -312,8 +419,8 @@ structure CkDirView where
   files : List CkDirFile      -- those with at least one invalid block (any order)
 deriving Repr, Inhabited
 
-def ckDirView (ck : Bytes → Nat → Nat) (base : BaseDir) : CkDirView :=
-  let fs := ckDirFiles ck base
+def ckDirView (ck : Bytes → Nat → Nat) (d : DataDir) : CkDirView :=
+  let fs := ckDirFiles ck d
   { totalFiles := fs.length,
     totalBlocks := (fs.map (·.view.totalBlocks)).sum,
     validBlocks := (fs.map (·.view.validBlocks)).sum,
